@@ -29,6 +29,7 @@ type TierCfg struct {
 	MaxPaths   int            `json:"max_paths"`
 	TimeoutMs  int            `json:"timeout_ms"`
 	BudgetSec  int            `json:"budget_sec"`
+	Solver     string         `json:"solver"` // "" = z3 4.8.12; "z3-new" = z3 5.1.0 as the deciding solver
 }
 
 type HarnessCfg struct {
@@ -259,7 +260,17 @@ func cmdCheck(args []string) int {
 		if tier == "thorough" {
 			crossEvery = 20
 		}
-		cfg := sym.ExploreConfig{Workers: 16, Solver: "z3", Solver2: solver2, CrossEvery: crossEvery, TimeoutMs: def(tc.TimeoutMs, 10000), StepBudget: def(tc.StepBudget, 2000000), ForkBudget: def(tc.ForkBudget, 400), MaxPaths: tc.MaxPaths}
+		primary := "z3"
+		if tc.Solver != "" {
+			primary = tc.Solver
+		}
+		if v := os.Getenv("VERIF_SOLVER"); v != "" {
+			primary = v
+		}
+		if primary == solver2 {
+			solver2 = "z3"
+		}
+		cfg := sym.ExploreConfig{Workers: 16, Solver: primary, Solver2: solver2, CrossEvery: crossEvery, TimeoutMs: def(tc.TimeoutMs, 10000), StepBudget: def(tc.StepBudget, 2000000), ForkBudget: def(tc.ForkBudget, 400), MaxPaths: tc.MaxPaths}
 		if n, _ := strconv.Atoi(os.Getenv("VERIF_WORKERS")); n > 0 {
 			cfg.Workers = n
 		}
@@ -268,9 +279,11 @@ func cmdCheck(args []string) int {
 		}
 		bs := tc.BudgetSec
 		if bs == 0 {
-			bs = 600
+			// per harness; generous, so that a loaded machine does not turn
+			// a complete exploration into an inconclusive one
+			bs = 1500
 			if tier == "thorough" {
-				bs = 3600
+				bs = 7200
 			}
 		}
 		cfg.Deadline = time.Now().Add(time.Duration(bs) * time.Second)
